@@ -6,6 +6,7 @@ package hreader
 import (
 	"bytes"
 	"fmt"
+	"os"
 	"sort"
 	"strings"
 	"testing"
@@ -20,6 +21,7 @@ import (
 	"github.com/milvus-io/milvus/pkg/util/funcutil"
 
 	"github.com/zilliztech/milvus-cdc/core/api"
+	"github.com/zilliztech/milvus-cdc/core/reader"
 
 	"verifharness/stats"
 )
@@ -550,12 +552,25 @@ func propC01C02(t *rapid.T, prop string) {
 	sc := stats.New(prop)
 	w := newWorld(worldOpts{ttIntervalMs: rapid.SampledFrom([]int{1, 10000000}).Draw(t, "ttInterval"), bufSize: rapid.SampledFrom([]int{1, 4, 16}).Draw(t, "bufSize")})
 	defer w.close()
+	if os.Getenv("VERIF_TRACE") != "" { // debugging aid: trace the instrumented points of the pack handler
+		reader.SetVerifYield(func(point, ch string, src, out *api.ReplicateMsg) {
+			id := ""
+			if src != nil && src.MsgPack != nil && len(src.MsgPack.EndPositions) > 0 {
+				id = string(src.MsgPack.EndPositions[0].MsgID)
+			}
+			fmt.Printf("TRACE %s on %s pack=%s msgs=%d\n", point, ch, id, len(src.MsgPack.Msgs))
+		})
+		defer reader.SetVerifYield(nil)
+	}
 	gi := genWorld(t, w, genOpts{allowSkew: true, allowLatePart: true, allowAbsent: true})
 	drive(t, w, gi)
+	if os.Getenv("VERIF_TRACE") != "" {
+		fmt.Printf("TRACE catalog %v\n", w.describe())
+	}
 	if busy, ok := w.quiesce(30 * time.Second); !ok {
 		t.Fatalf("VERIF-TROUBLE quiescence not reached: %s", busy)
 	}
-	os := checkC01C02(t, w, prop)
+	res := checkC01C02(t, w, prop)
 	for k := range gi.posKinds {
 		sc.Class("positions:" + k)
 	}
@@ -568,19 +583,19 @@ func propC01C02(t *rapid.T, prop string) {
 	sc.ClassIf(gi.absentColl, "collection-created-by-event")
 	sc.ClassIf(gi.interleave, "registration-after-first-feed")
 	sc.ClassIf(gi.unregistered > 0, "stream-waiting-for-free-channel(not fed)")
-	sc.ClassIf(os.errorEvents > 0, "replicate-error-event")
-	sc.ClassIf(os.tickOnly > 0, "tick-only-pack-emitted")
-	sc.Count("messages_compared", os.msgsChecked)
-	sc.Count("data_packs", os.dataPacks)
-	sc.Count("packs_excluded_by_F-C01-forward-overtake", os.excludedSplit)
-	sc.ClassIf(os.excludedSplit > 0, "forwarded-stream(order tick/data not compared)")
+	sc.ClassIf(res.errorEvents > 0, "replicate-error-event")
+	sc.ClassIf(res.tickOnly > 0, "tick-only-pack-emitted")
+	sc.Count("messages_compared", res.msgsChecked)
+	sc.Count("data_packs", res.dataPacks)
+	sc.Count("packs_excluded_by_F-C01-forward-overtake", res.excludedSplit)
+	sc.ClassIf(res.excludedSplit > 0, "forwarded-stream(order tick/data not compared)")
 	if prop == "C01" {
-		sc.NonTrivial((gi.shared && os.dataPacks >= 2) || gi.interleave)
+		sc.NonTrivial((gi.shared && res.dataPacks >= 2) || gi.interleave)
 	} else {
 		sc.NonTrivial(!gi.aligned || gi.latePart || gi.shared)
 	}
 	sc.Fingerprint(w.describe())
-	sc.Sample(map[string]any{"catalog": w.describe(), "actions": w.hist, "emitted_data_packs": os.dataPacks, "emitted_tick_only_packs": os.tickOnly})
+	sc.Sample(map[string]any{"catalog": w.describe(), "actions": w.hist, "emitted_data_packs": res.dataPacks, "emitted_tick_only_packs": res.tickOnly})
 	sc.Done()
 }
 
